@@ -639,6 +639,21 @@ class Executor:
                     yield from res; return
         fn = self.prog.resolve(callee, args, st, caller)
         if fn is None:
+            # provided methods of std comparison traits, derived from the required one exactly as core defines them
+            m = re.match(r'^<(.+) as (PartialEq|PartialOrd)(<.*>)?>::(ne|lt|le|gt|ge)$', callee, re.S)
+            if m:
+                base = f'<{m.group(1)} as {m.group(2)}{m.group(3) or ""}>::' + ('eq' if m.group(4) == 'ne' else 'partial_cmp')
+                op = m.group(4)
+                for s2, kind, v in self.call(base, args, st, depth, caller=caller):
+                    if kind != 'ret':
+                        yield s2, kind, v; continue
+                    if op == 'ne':
+                        yield s2, 'ret', Bool(z3.simplify(z3.Not(v.e)))
+                    else:
+                        o = v.items[0].variant if v.variant == 'Some' else None
+                        yield s2, 'ret', Bool({'lt': o == 'Less', 'le': o in ('Less', 'Equal'), 'gt': o == 'Greater', 'ge': o in ('Greater', 'Equal')}[op])
+                self.models_used.add('std-provided PartialEq::ne / PartialOrd::{lt,le,gt,ge} (defined from eq / partial_cmp as in core)')
+                return
             recv = ''
             if args:
                 r0 = st.deref_all(args[0]) if isinstance(args[0], Ref) else args[0]
